@@ -13,6 +13,7 @@ def run(tier, seed):
     run_fragments(rep, core.CORE, tier)
     # arbitrary arity: segment induction for Choice, closure checks for Seq (section 0, deviation 4)
     segments.ChoiceSegments().run(rep, tier)
+    segments.LongestSegments().run(rep, tier)
     segments.seq_closure(rep, tier)
     wiring.rule_wrapper_obligations(rep, tier)
     wiring.a_subst_obligations(rep, tier)
@@ -20,7 +21,7 @@ def run(tier, seed):
     rep.functions.update(['sourcer.expressions.utils.if_succeeds', 'sourcer.expressions.utils.if_fails',
                           'sourcer.expressions.utils.breakable', 'sourcer.expressions.utils.skip_ignored',
                           'sourcer.expressions.base.Expression.compile'])
-    rep.assumptions.append('arity: Choice is proved for EVERY arity by segment induction (head / middle / last+tail triples from an arbitrary state satisfying the cut-point invariant + closure of the segment shapes at arity 5 and 7); Seq: outright <= 3/4 + closure (segments are proved shapes, items distinct, display in order); Longest, Skip: outright <= 3/4, larger arities rest on A-uniform')
+    rep.assumptions.append('arity: Choice is proved for EVERY arity by segment induction (head / middle / last+tail triples from an arbitrary state satisfying the cut-point invariant + closure of the segment shapes at arity 5 and 7); Seq: outright <= 3/4 + closure (segments are proved shapes, items distinct, display in order); Longest: every arity by the same segment induction (ghost winner-so-far); Skip: outright <= 2/3, larger arities rest on A-uniform')
     rep.assumptions.append('re contract: matcher(text,pos) is None or a match with pos <= end <= len(text), a function of (pattern, flags, text, pos)')
     rep.assumptions.append('driver contract for rule references: the answer to a request (CALL, f, pos) is the outcome of f at pos (proved for _run under C07/C08)')
     return rep.finish()
